@@ -1,10 +1,10 @@
 \* design check, features only: every subset of versions and protocols x 8 stream-type classes x
-\* codec classes (incl. deprecated TEXT) x all 3^5 tri-states of the interacting flags, no entries
+\* codec sets {} and {TEXT} x all 3^5 tri-states of the interacting flags, no entries
 CONSTANTS
   NZ = 2
   AxisVs <- AllVs
   AxisPs <- AllPs
-  AxisCs <- CodecClasses
+  AxisCs = {{}, {3}}
   AxisZs = {{}}
   AxisSs <- StreamClasses
   TriH2c <- Tri
